@@ -11,6 +11,38 @@ def _pos(pat, text, what):
     return m.start()
 
 
+def _impl_block(src, header):
+    """text of `impl <header> {...}` (brace matched), whitespace removed; None if absent or not unique"""
+    ms = list(re.finditer(r"\bimpl\s+" + header + r"\s*\{", src))
+    if len(ms) != 1:
+        return None
+    i = ms[0].end() - 1
+    depth = 0
+    for j in range(i, len(src)):
+        if src[j] == "{":
+            depth += 1
+        elif src[j] == "}":
+            depth -= 1
+            if depth == 0:
+                return re.sub(r"\s+", "", re.sub(r"//[^\n]*", "", src[i : j + 1]))
+    return None
+
+
+def real_order_exact():
+    """src/real.rs: Ord for Real is exactly the order of the inner f64 through partial_cmp (panic on NaN), PartialOrd
+    delegates to it, PartialEq is derived on the one-field struct; no tolerance anywhere.  Fails closed."""
+    src = read("src/real.rs")
+    o = _impl_block(src, r"Ord\s+for\s+Real")
+    po = _impl_block(src, r"PartialOrd\s+for\s+Real")
+    return (
+        o == '{fncmp(&self,other:&Real)->Ordering{self.0.partial_cmp(&other.0).expect("cannotcomparewithNaN")}}'
+        and po == "{fnpartial_cmp(&self,other:&Real)->Option<Ordering>{Some(self.cmp(other))}}"
+        and re.search(r"#\[derive\(PartialEq,\s*Copy,\s*Clone,\s*Default\)\]\s*pub\s+struct\s+Real\(f64\);", src) is not None
+        and re.search(r"impl\s+PartialEq\b[^{]*\bfor\s+Real\b", src) is None
+        and _impl_block(src, r"Eq\s+for\s+Real") == "{}"
+    )
+
+
 # ------------------------------------------------- C14: guards and comparison operators of vn/best.rs, vn/first.rs
 def gen_vn():
     out = HEADER.format(src="src/algorithms/vn/best.rs, src/algorithms/vn/first.rs, src/imbalance.rs")
@@ -75,6 +107,8 @@ def gen_vn():
         len(re.findall(r"\bp\s*=(?!=)", f)) == 1 and re.search(r"let\s+p\s*=\s*partition\[i\]", f) is not None)
     out += "Definition vnfirst_stops_after_move : bool := %s.\n" % coq_bool(
         re.search(r"while\s+i\s*!=\s*i_last", f) is not None and re.search(r"i_last\s*=\s*i;", f) is not None)
+    # coupe::Real, the Ord float wrapper these algorithms accept as a weight type
+    out += "Definition vn_real_order_exact : bool := %s.\n" % coq_bool(real_order_exact())
     return out
 
 
@@ -94,6 +128,8 @@ PROP = dict(
          "one negative weight among non-negative ones, and all weights <= 0 with at least one zero and one negative "
          "(maximum exactly 0); plus a REUSE stream (about 30 % of the cases): one VnBest / VnFirst value serves a sequence "
          "of 2-4 calls (its own output again, new weights on that output, another length), each call a case of its own; "
+         "plus a SCALE family (1 unit in 8): the integer families times 2^s (subnormal .. 2^900, every value, sum, "
+         "difference and half exact) as plain f64 or through coupe::Real, compared with the integer model (flt = true); "
          "plus a LARGE family (a few cases per quick run, ~100 per thorough run): 4097..9999 weights (4097, 4104, 5000, 8191, "
          "8193, 9000, 9999), 2..8 parts, i64 or integer-valued f64, the last len % 4096 positions holding all the weight of "
          "the last part (made the heaviest) or weights (n-t)/t times larger -- described by generator parameters, output "
@@ -148,7 +184,7 @@ MANIFEST = dict(
          "VnFirst can raise the exact gap by a rounding error "
          "(C14_vnfirst_f64_exact_gap_refuted); the integer theorems stand as stated for i64 and integer-valued f64.",
     design_ref="DESIGN.md §7 C14",
-    note="Trusted: Coq kernel; model<->code tie = translator (12 literals) + differential runs (4k/40k cases); itertools minmax "
+    note="Trusted: Coq kernel; model<->code tie = translator (13 literals, incl. compute_parts_load and the order of coupe::Real) + differential runs (4k/40k cases); itertools minmax "
          "and binary_search contracts as listed; no axioms.",
     technique="Coq proof (loop invariants; decreasing sum of squares; invariant on tracked vs true loads for VnFirst) + translator "
               "+ model/implementation correspondence + certified checker",
